@@ -158,6 +158,26 @@ func geoCheck2(op string, v []float64) (bool, string, string) {
 		if d >= r+tol && got[0] {
 			return true, fmt.Sprintf("not contained: distance %.6f > radius %v", d, r), "true"
 		}
+	case "circle-zero-value":
+		// plat, plon: the zero value of Circle is the circle of radius 0 at (0,0)
+		c := new(geojson.Circle)
+		p := geometry.Point{X: v[1], Y: v[0]}
+		pt, sp := geojson.NewPoint(p), geojson.NewSimplePoint(p)
+		want := v[0] == 0 && v[1] == 0
+		got := []bool{c.Contains(pt), c.Contains(sp), c.Intersects(pt), c.Intersects(sp), pt.Within(c), sp.Within(c), pt.Intersects(c), sp.Intersects(c)}
+		for _, g := range got {
+			if g != want {
+				return true, fmt.Sprintf("all %v (distance %.3f m from the centre (0,0), radius 0)", want, sphere.Dist(0, 0, v[0], v[1])), fmt.Sprint(got)
+			}
+		}
+		if c.Meters() != 0 || c.Center() != (geometry.Point{}) {
+			return true, "centre (0,0), radius 0", fmt.Sprint(c.Center(), c.Meters())
+		}
+		if o, err := geojson.Parse(c.JSON(), nil); err != nil {
+			return true, "its JSON parses back", err.Error()
+		} else if c2, ok := o.(*geojson.Circle); !ok || c2.Center() != c.Center() || c2.Meters() != c.Meters() {
+			return true, "parses back to the same circle", o.JSON()
+		}
 	case "circle-monotone":
 		// clat, clon, r1 < r2, plat, plon
 		c1 := geojson.NewCircle(geometry.Point{X: v[1], Y: v[0]}, v[2], 64)
@@ -358,6 +378,57 @@ func runC14(r *rt.Run) {
 			}
 		}
 	})
+	// discs that stop within a few ulps of a pole, for every dense radius and
+	// every latitude 90 - r/R -4..+4 ulps, both hemispheres (no NaN, covers)
+	r.ParFor(len(dr), func(i int, w *rt.Worker) {
+		rr := dr[i]
+		if rr >= piR/2 {
+			return
+		}
+		base := 90 - rr/sphere.R*180/math.Pi
+		for k := -4; k <= 4; k++ {
+			x := base
+			for s := 0; s < int(math.Abs(float64(k))); s++ {
+				if k > 0 {
+					x = math.Nextafter(x, 100)
+				} else {
+					x = math.Nextafter(x, -100)
+				}
+			}
+			for _, lat := range []float64{x, -x} {
+				for _, lon := range []float64{0, 10, -120, 179.5} {
+					w.Trans++
+					w.Nontriv++
+					geoRun(w, "rect-shape", lat, lon, rr)
+					geoRun(w, "rect-covers-tangent", lat, lon, rr, 1)
+				}
+			}
+		}
+	})
+	// and the other way round: for irregular latitudes, the radii that reach
+	// the pole exactly (computed two ways) -3..+3 ulps
+	{
+		w := r.Worker()
+		for _, lat := range []float64{16.55, 5.009, -7.295, 12.3456, 19.99, -18.221, 9.7955, 33.3, -51.477, 0.5} {
+			for _, d := range []float64{(90 - math.Abs(lat)) * math.Pi / 180 * sphere.R, sphere.Dist(lat, 0, math.Copysign(90, lat), 0)} {
+				for k := -3; k <= 3; k++ {
+					x := d
+					for s := 0; s < int(math.Abs(float64(k))); s++ {
+						if k > 0 {
+							x = math.Nextafter(x, math.Inf(1))
+						} else {
+							x = math.Nextafter(x, 0)
+						}
+					}
+					for _, lon := range []float64{10, -120, 0} {
+						w.Trans++
+						geoRun(w, "rect-shape", lat, lon, x)
+					}
+				}
+			}
+		}
+		w.Flush()
+	}
 	// call history: one worker, so that nothing but the sequence itself can matter
 	{
 		w := r.Worker()
@@ -496,6 +567,17 @@ func runC13(r *rt.Run) {
 		}
 		w.Outcome(fmt.Sprintf("r=%g", rr))
 	})
+	// the zero value of Circle against the probe grid
+	{
+		w := r.Worker()
+		for _, la := range []float64{0, 1e-9, -0.001, 10, -45, 90} {
+			for _, lo := range []float64{0, 1e-9, 0.001, 10, -90, 180, -180} {
+				w.Trans++
+				geoRun(w, "circle-zero-value", la, lo)
+			}
+		}
+		w.Flush()
+	}
 	// serialisation and polygon: all step counts
 	ser := append(append([]float64(nil), radii[:coarse]...), -1, math.NaN(), math.Inf(1), 3*piR)
 	r.ParFor(4098, func(i int, w *rt.Worker) {
